@@ -4,6 +4,7 @@ CONSTANTS MaxBlocks = 3
           NSrc = 3
           NGrp = 2
           Workers = {"w1", "w2"}
+          FullGrpBlocks = 3
           CaseBlocks = 3
 INVARIANTS C31_HiddenOnlyIfCovered C31_KeptCoverEverySource C31_OutcomeIndependentOfSchedule NeverRemovesKept
 PROPERTIES Terminates
